@@ -12,11 +12,46 @@ def bounded_custom(tier, seed):
     return pb.bounded_custom(PID, tier, seed)
 
 
+def static_frame():
+    """C20.F: the behaviour of a registered command is a function of its class definition and the instance: commands.py
+    keeps no other table -- the only stores outside `self` are the registration into the module namespace and the
+    extension registry (C07.G3); every item store goes into the instance's own argument maps"""
+    import ast
+    from pyvc import scan
+    from props.common import static_ob
+    idx = runner.get_index()
+    obs = []
+    for (enc, line, attr, tgt, kind) in scan.all_attr_stores("sievelib.commands"):
+        if tgt != "self":
+            ok = (tgt == "RequireCommand" and attr == "loaded_extensions" and enc == "RequireCommand.complete_cb")
+            obs.append(static_ob("C20.F.shared-store.%s.%s.in.%s" % (tgt, attr, enc), ok,
+                                 "commands.py:%d store to %s.%s" % (line, tgt, attr), "ast-scan"))
+    tree = idx.trees["sievelib.commands"]
+    aug = set(n.target for n in ast.walk(tree) if isinstance(n, ast.AugAssign))
+    n_items = 0
+    for n in ast.walk(tree):
+        if isinstance(n, ast.Subscript) and (isinstance(n.ctx, (ast.Store, ast.Del)) or n in aug):
+            base = ast.unparse(n.value)
+            n_items += 1
+            obs.append(static_ob("C20.F.item-store.line%d" % n.lineno, base in ("self.arguments", "self.extra_arguments", "globals()"),
+                                 "commands.py:%d item store into %s (a table shared between commands?)" % (n.lineno, base), "ast-scan"))
+    obs.append(static_ob("C20.F.item-stores-found", n_items >= 3, "item stores found: %d" % n_items, "ast-scan"))
+    # mutating method calls on class-level containers (append / update / setdefault / add on a non-self, non-local base)
+    for n in ast.walk(tree):
+        if isinstance(n, ast.Call) and isinstance(n.func, ast.Attribute) and n.func.attr in ("update", "setdefault", "add", "pop", "clear"):
+            base = ast.unparse(n.func.value)
+            if base.split(".")[0][:1].isupper():
+                obs.append(static_ob("C20.F.class-level-container-mutated.line%d" % n.lineno, False,
+                                     "commands.py:%d %s.%s(...)" % (n.lineno, base, n.func.attr), "ast-scan"))
+    return obs
+
+
 def plan(tier):
     runner.get_index()
     from contracts import custom, arglayer
     pl = Plan()
     pl.level = "other"
+    pl.static = [static_frame]
     seed = 1
     for as_list in (False, True):
         pl.units.append(U("R.add_commands.%s" % ("list" if as_list else "single"), "contracts.custom", "h_add_commands", (as_list,),
